@@ -81,6 +81,7 @@ class Loop:
     has_else: bool = False
     func: str = ""
     found: List[Tuple[Cond, ...]] = field(default_factory=list)   # conditions (inside the loop) under which a `first` value is taken
+    fused_from: Tuple[int, ...] = ()   # loops that built (one element per position) a list this loop walks: their events are this loop's
 
 
 @dataclass
@@ -570,9 +571,16 @@ class Interp:
         if fz is not None:
             L1, extra, val = fz
             it = self.loops[L1].iter
+        mapped = self._unmap_iter(it) if fz is None else None
+        orig_it = it
+        if mapped is not None:
+            it = mapped[0]
         lp = self._new_loop("for", it, s, st, frame)
         lp.has_else = bool(s.orelse)
         elem = self.loop_element(it, lp)
+        if mapped is not None:
+            elem = self._mapped_element(orig_it, elem, mapped[1], lp)
+            lp.fused_from = tuple(sorted({x[0] for k_, x in mapped[1].items() if k_ != "collapsed"}))
         inner = _State(st.conds, st.loops + (lp.id,))
         if fz is not None:
             elem = reloop(val, L1, lp.id)
@@ -598,6 +606,109 @@ class Interp:
             if r is None and not lp.breaks:
                 return None
         return out
+
+    # -- a list built one element per position of a source sequence (a "map" written as a loop) ------------------------------
+    def mapped_list(self, obj: Term) -> Optional[Tuple[int, Term, Term]]:
+        """(L1, source sequence S, element value V) when `obj` is a list that starts empty and is only ever changed by `.append(..)`
+        inside ONE for-loop L1 over S (or enumerate(S)), exactly once on every path through an iteration (the appends sit in the arms
+        of an if / elif / else that covers all cases): element i of the list is V at position i of S.  V is given in terms of
+        ('elem', S, L1) / ('idx', L1); None for any other list."""
+        if obj[0] != "obj":
+            return None
+        o = self.objs[obj[1]]
+        if o.kind != "list" or o.init or isinstance(o.node, ast.Call) and getattr(o.node, "args", None):
+            return None
+        evs = []
+        for e in self.events:
+            if e.kind == "call" and e.term[1][0] == "attr" and e.term[1][1] == obj:
+                if e.term[1][2] != "append" or len(e.term[2]) != 1 or e.term[3]:
+                    return None
+                evs.append(e)
+            elif e.kind in ("store", "del") and e.term[0] == "sub" and e.term[1] == obj:
+                return None
+        if not evs:
+            return None
+        loops = {e.loops for e in evs}
+        if len(loops) != 1:
+            return None
+        lps = next(iter(loops))
+        if len(lps) != len(o.loops) + 1 or lps[:len(o.loops)] != tuple(o.loops):
+            return None
+        L1 = lps[-1]
+        lp1 = self.loops[L1]
+        if lp1.kind != "for" or lp1.iter is None or lp1.breaks or lp1.returns:
+            return None
+        if lp1.iter[0] == "call" and lp1.iter[1] == ("name", "enumerate") and len(lp1.iter[2]) == 1 and not lp1.iter[3]:
+            S = lp1.iter[2][0]
+        elif lp1.iter[0] == "call" and lp1.iter[1][0] == "name" and lp1.iter[1][1] in ("zip", "enumerate", "range", "reversed", "sorted", "iter"):
+            return None
+        else:
+            S = lp1.iter
+        base = len(lp1.conds)
+
+        def tree(items):
+            """the value as a conditional over the arms; None unless the arms cover every case exactly once"""
+            if len(items) == 1 and not items[0][0]:
+                return items[0][1]
+            if any(not cs for cs, _v in items):
+                return None
+            c0 = items[0][0][0][0]
+            yes = [(cs[1:], v) for cs, v in items if cs[0] == (c0, True)]
+            no = [(cs[1:], v) for cs, v in items if cs[0] == (c0, False)]
+            if not yes or not no or len(yes) + len(no) != len(items):
+                return None
+            a, b = tree(yes), tree(no)
+            if a is None or b is None:
+                return None
+            return ("ifexp", c0, a, b)
+        V = tree([(tuple(e.conds[base:]), e.term[2][0]) for e in evs])
+        if V is None:
+            return None
+        return L1, S, V
+
+    def _unmap_iter(self, it: Term):
+        """(iterable with every mapped list replaced by its source sequence, {argument position (None = the iterable itself):
+        (L1, V)}) for `for .. in M`, `enumerate(M)`, `zip(.., M, ..)`; None if no mapped list is walked."""
+        if it[0] == "obj":
+            m = self.mapped_list(it)
+            return None if m is None else (m[1], {None: (m[0], m[2])})
+        if it[0] == "call" and it[1] in (("name", "enumerate"), ("name", "zip")) and it[2] and \
+                (not it[3] or (it[1][1] == "zip" and all(k == "strict" for k, _ in it[3]))):
+            if it[1][1] == "enumerate" and len(it[2]) != 1:
+                return None
+            args, found = [], {}
+            for k, a in enumerate(it[2]):
+                m = self.mapped_list(a) if a[0] == "obj" else None
+                if m is None:
+                    args.append(a)
+                else:
+                    args.append(m[1])
+                    found[k] = (m[0], m[2])
+            if found:
+                if it[1][1] == "zip" and len(set(args)) == 1:
+                    # zip(S, M) with M mapped from S: one walk over S, the pair being (element, its mapped value)
+                    found = dict(found)
+                    found["collapsed"] = len(args)
+                    return args[0], found
+                return ("call", it[1], tuple(args), it[3]), found
+        return None
+
+    def _mapped_element(self, orig_it: Term, elem: Term, found, lp: Loop) -> Term:
+        def value(L1, V):
+            return reloop(V, L1, lp.id)
+        if None in found:
+            return value(*found[None])
+        if "collapsed" in found:
+            return ("tuple", tuple(value(*found[k]) if k in found else elem for k in range(found["collapsed"])))
+        # enumerate(M): (idx, element)   zip(a, M, ..): (elements ..)
+        if elem[0] != "tuple":
+            return elem
+        parts = list(elem[1])
+        off = 1 if orig_it[1][1] == "enumerate" else 0
+        for k, (L1, V) in found.items():
+            if k + off < len(parts):
+                parts[k + off] = value(L1, V)
+        return ("tuple", tuple(parts))
 
     def _fusable(self, it: Term, inline_comp: bool) -> Optional[Tuple[int, Tuple[Cond, ...], Term]]:
         """(inner loop, filter conditions, element value) when `it` is a comprehension with ONE generator over a plain iterable,
